@@ -220,16 +220,23 @@ type node struct {
 	par    bool
 	clis   []net.Conn
 	roundC chan<- int
+	// clusterhold: as clusterpar, the commit of a round held back for [hold]
+	heldC chan<- server.VerifRound
+	hold  time.Duration
 }
 
 const parConns = 4
 
-func newNode(cfg *config.Config, cluster bool, par bool) *node {
+func newNode(cfg *config.Config, cluster bool, par bool, held bool) *node {
 	n := &node{mgr: server.NewManager(cfg), cluster: cluster || par, par: par}
 	tap := func(b []byte) {
 		n.mu.Lock()
 		n.entries = append(n.entries, append([]byte{}, b...))
 		n.mu.Unlock()
+	}
+	if held {
+		n.clis, n.heldC, n.stop = server.VerifClusterLoopbackHeld(n.mgr, parConns, tap)
+		return n
 	}
 	if par {
 		n.clis, n.roundC, n.stop = server.VerifClusterLoopbackMulti(n.mgr, parConns, tap)
@@ -342,10 +349,18 @@ func (n *node) execRound(round []parCmd) (wires [][]byte, status []string) {
 		}(i, pc)
 	}
 	watchdog := time.After(60 * time.Second)
-	select {
-	case n.roundC <- len(round):
-	case <-watchdog:
-		n.dead = true
+	if n.heldC != nil {
+		select {
+		case n.heldC <- server.VerifRound{N: len(round), Hold: n.hold}:
+		case <-watchdog:
+			n.dead = true
+		}
+	} else {
+		select {
+		case n.roundC <- len(round):
+		case <-watchdog:
+			n.dead = true
+		}
 	}
 	for got := 0; got < len(round) && !n.dead; got++ {
 		select {
@@ -379,8 +394,9 @@ func c14RunCmd(args []string) error {
 	if len(args) != 4 {
 		return fmt.Errorf("c14run <standalone|cluster> <prog> <out> <scratch>")
 	}
-	cluster := args[0] == "cluster" || args[0] == "clusterpar"
-	par := args[0] == "clusterpar"
+	cluster := args[0] == "cluster" || args[0] == "clusterpar" || args[0] == "clusterhold"
+	par := args[0] == "clusterpar" || args[0] == "clusterhold"
+	held := args[0] == "clusterhold"
 	f, err := os.Open(args[1])
 	if err != nil {
 		return err
@@ -482,7 +498,7 @@ func c14RunCmd(args []string) error {
 			}
 			dbs, _ := strconv.Atoi(fs[2])
 			flushRound()
-			nd = newNode(setupServer(dbs, args[3]), cluster, par)
+			nd = newNode(setupServer(dbs, args[3]), cluster, par, held)
 			caseName, step = fs[1], 0
 			fmt.Fprintf(w, "CASE %s %d\n", fs[1], dbs)
 			progress.Truncate(0)
@@ -534,6 +550,13 @@ func c14RunCmd(args []string) error {
 				for _, e := range nd.drainEntries() {
 					fmt.Fprintf(we, "P %s %d %s | %s\n", caseName, step, strings.Join(fs[3:], " "), hx(e))
 				}
+			}
+		case "H":
+			// clusterhold: hold the commit of the following rounds for this many (virtual) milliseconds
+			flushRound()
+			if nd != nil && len(fs) > 1 {
+				ms, _ := strconv.Atoi(fs[1])
+				nd.hold = time.Duration(ms) * time.Millisecond
 			}
 		case "DUMP":
 			flushRound()
